@@ -13,6 +13,7 @@ from jasm.global_definitions import Instruction
 
 ID = "C09"
 LEVEL = "exploration"
+CGF_RUNS = {"thorough": 8000}  # coverage-guided stage (vlib/cgf.py): libFuzzer executions per worker, 16 workers
 RULE = (
     "Three input routes (drawn first): 'synthetic' objdump-format lines whose 0-3 operands are composed from the forms the statement lists ($imm hex of any width, "
     "every GPR at every width, the five memory shapes over all base/index registers, scales 1/2/4/8, displacements of either sign, direct targets with/without "
